@@ -64,10 +64,11 @@ def ingest(name, wt, prop, needs=""):
     demo = os.path.join(wt, "SEED", "demo.py")
     # regenerate the patch from the worktree itself (authoritative)
     cp = subprocess.run(["git", "-C", wt, "diff", "--", "src"], capture_output=True, text=True)
-    if cp.stdout.strip():
-        patch_text = cp.stdout
-    else:
-        patch_text = open(patch).read()
+    # the agent's declared patch is authoritative (worktrees share one git stash, so a worktree
+    # may have been contaminated); warn when the worktree differs from it
+    patch_text = open(patch).read()
+    if cp.stdout.strip() and cp.stdout.strip() != patch_text.strip():
+        print("WARNING: worktree diff differs from SEED/patch.diff; using SEED/patch.diff")
     a = scratch_copy()
     b = scratch_copy()
     try:
